@@ -35,7 +35,7 @@ FOUND = ('r is Ok ==> r->Ok_0.1 == final(self).cursor && in_grid(*old(self), r->
 ERRKEEP = 'r is Err ==> final(self).cursor == old(self).cursor'
 CHAR = 'proof { axiom_char_eq(); }'
 RN = [('RX', 'R11', r'let text = text\.trim\(\);\s*if let Ok\(rule_number\) = usize::from_str\(text\) \{', 'if let Ok(rule_number) = rule_number_from(text) {', 1)]
-VLEN = 'broadcast use axiom_vec_len_fits;'
+VLEN = 'broadcast use axiom_vec_len_fits, axiom_plane_rows_fit, axiom_plane_cells_fit;'
 FMT = ('RX', 'R5', r'&format!\("row=\{\} col=\{\} cell=\{:\?\}", row, col, cell\)', '""', 1)
 BODY0 = 'old(self).body_rect is Some ==> (old(self).body_rect->Some_0.left < old(self).body_rect->Some_0.right <= grid_w(old(self).content@) && old(self).body_rect->Some_0.top < old(self).body_rect->Some_0.bottom <= old(self).content@.len())'
 PAINT = 'text_kept(old(self).content@, final(self).content@) && grid_rect(final(self).content@) && only_content(*old(self), *final(self))'
@@ -241,7 +241,27 @@ UNIT = {
         fn(PL, 'Plane', 'width', ret='r', ensures=[('width', 'r == (if self.content@.len() == 0 { 0 } else { self.content@[0]@.len() })')]),
         fn(PL, 'Plane', 'height', ret='r', ensures=[('height', 'r == self.content@.len()')]),
         fn(PL, 'Plane', 'remove_last_row', ensures=[('last_row_removed', 'old(self).content@.len() > 0 ==> final(self).content@ =~= old(self).content@.drop_last()'), ('empty_stays', 'old(self).content@.len() == 0 ==> final(self).content@ =~= old(self).content@')]),
-        fn(PL, 'Plane', 'finalize', ret='r', requires=[('not_empty', 'old(self).content@.len() > 0')], ensures=[('last_row_removed', 'final(self).content@ =~= old(self).content@.drop_last()')]),
+        # (after fix: finalize checks that the plane is rectangular - the maintainer's TODO; this discharges, at its source, what the rule
+        # number recognition and pivot need from the plane)
+        fn(PL, 'Plane', 'finalize', ret='r',
+           rewrites=[('RX', 'R13', r'self\.content\.iter\(\)\.any\(\|row\| row\.len\(\) != width\)', 'some_row_len_differs(&self.content, width)', 1)],
+           ensures=[('last_row_removed', 'final(self).content@ =~= (if old(self).content@.len() > 0 { old(self).content@.drop_last() } else { old(self).content@ })'),
+                    ('an_accepted_plane_is_rectangular', 'r is Ok ==> rectangular(*final(self)) && rows_nonempty(*final(self))')]),
+        fn(PL, 'Plane', 'pivot', loops=2, body_prefix=VLEN,
+           rewrites=[('RX', 'R13', r'pivot_content\.last_mut\(\)\.unwrap\(\)\.push\(new_cell\);', 'push_to_last_row(&mut pivot_content, new_cell);', 1)],
+           requires=[('rectangular', 'rectangular(*old(self))')],
+           ensures=[('transposed_shape', 'final(self).content@.len() == old(self).content@[0]@.len() && forall |c: int| 0 <= c < final(self).content@.len() ==> (#[trigger] final(self).content@[c])@.len() == old(self).content@.len()')],
+           loop_specs={0: {'invariant': [('rows_kept', 'self.content@.len() == old(self).content@.len() && self.content@.len() >= 1'),
+                                         ('equal_lengths', 'forall |r: int| 0 <= r < self.content@.len() ==> (#[trigger] self.content@[r])@.len() == self.content@[0]@.len()'),
+                                         ('columns_moved', 'pivot_content@.len() + self.content@[0]@.len() == old(self).content@[0]@.len()'),
+                                         ('moved_columns_are_full', 'forall |c: int| 0 <= c < pivot_content@.len() ==> (#[trigger] pivot_content@[c])@.len() == old(self).content@.len()')],
+                           'decreases': 'self.content@[0]@.len()', 'body_prefix': VLEN + '\nlet ghost w0 = self.content@[0]@.len();'},
+                       1: {'iter_name': 'itr',
+                           'invariant': [('rows_kept', 'self.content@.len() == old(self).content@.len() && self.content@.len() >= 1 && w0 >= 1 && itr.seq().len() == self.content@.len()'),
+                                         ('heads_removed_so_far', 'forall |r: int| 0 <= r < self.content@.len() ==> (#[trigger] self.content@[r])@.len() == (if r < row { w0 - 1 } else { w0 as int })'),
+                                         ('column_in_progress', 'pivot_content@.len() >= 1 && pivot_content@.last()@.len() == row && pivot_content@.len() + w0 == old(self).content@[0]@.len() + 1'),
+                                         ('moved_columns_are_full', 'forall |c: int| 0 <= c < pivot_content@.len() - 1 ==> (#[trigger] pivot_content@[c])@.len() == old(self).content@.len()')],
+                           'body_prefix': VLEN}}),
         fn(PL, 'Plane', 'main_double_crossing', ret='r', loops=2, rewrites=[('R1', 1), ('R1', 0)],
            ensures=[('first_main_crossing', 'r is Ok ==> first_main(*self, r->Ok_0)'), ('none', 'r is Err ==> no_cell(*self, |c: Cell| c is MainDoubleCrossing)')],
            loop_specs={0: {'invariant': [('none_above', 'forall |yy: int, xx: int| pl_in(*self, yy, xx) && yy < y ==> !(#[trigger] pl(*self, yy, xx) is MainDoubleCrossing)')]},
@@ -264,43 +284,48 @@ UNIT = {
                     ('empty_plane_is_an_error', 'r is Err <==> self.content@.len() == 0')]),
         fn(PL, 'Plane', 'is_horizontal_output_double_line', ret='r', requires=[('cell_exists', 'pl_in(*self, row as int, col as int)')], ensures=[('variant', 'r == (pl(*self, row as int, col as int) is HorizontalOutputDoubleLine)')]),
         fn(PL, 'Plane', 'is_vertical_output_double_line', ret='r', requires=[('cell_exists', 'pl_in(*self, row as int, col as int)')], ensures=[('variant', 'r == (pl(*self, row as int, col as int) is VerticalOutputDoubleLine)')]),
+        # (after fix: the search for the double line stops at the end of the plane: no precondition about a double line any more)
         fn(PL, 'Plane', 'recognize_horizontal_rule_numbers', ret='r', loops=2, rewrites=RN, body_prefix=VLEN,
            splices=[{'id': 'not_numbered_a', 'op': 'before', 'anchor': 'return Err(plane_invalid_rule_number(rule_number));', 'text': 'proof { assert forall |r0: int, n: int| numbered_rows(*self, r0, n) implies false by { let k = row - r0; if 1 <= k <= n { assert(numbered(pl(*self, r0 + k, 0), k)); } } }'},
                     {'id': 'not_numbered_b', 'op': 'before', 'anchor': 'return Ok(RuleNumbersPlacement::NotPresent);', 'nth': 0, 'text': 'proof { assert forall |r0: int, n: int| numbered_rows(*self, r0, n) implies false by { let k = row - r0; if 1 <= k <= n { assert(numbered(pl(*self, r0 + k, 0), k)); } } }'},
                     {'id': 'not_numbered_c', 'op': 'before', 'anchor': 'return Ok(RuleNumbersPlacement::NotPresent);', 'nth': 1, 'text': 'proof { assert forall |r0: int, n: int| numbered_rows(*self, r0, n) implies false by { let k = row - r0; if 1 <= k <= n { assert(numbered(pl(*self, r0 + k, 0), k)); } } }'}],
-           requires=[('rows_not_empty', 'rows_nonempty(*self)'), ('double_line_in_first_column', 'exists |r0: int| hodl_row(*self, r0)')],
+           requires=[('rows_not_empty', 'rows_nonempty(*self)')],
            ensures=[('numbered_1_to_n_below_the_double_line', '(r is Ok && r->Ok_0 is LeftBelow) ==> r->Ok_0->LeftBelow_0 >= 1 && exists |r0: int| #[trigger] hodl_row(*self, r0) && r0 + 1 + r->Ok_0->LeftBelow_0 == self.content@.len() '
                                                               '&& forall |k: int| 1 <= k <= r->Ok_0->LeftBelow_0 ==> numbered(#[trigger] pl(*self, r0 + k, 0), k)'),
                     ('never_right_after', 'r is Ok ==> !(r->Ok_0 is RightAfter)'),
+                    ('no_double_line_no_rule_numbers', '(forall |r0: int| !#[trigger] hodl_row(*self, r0)) ==> r == Ok::<RuleNumbersPlacement, DmntkError>(RuleNumbersPlacement::NotPresent)'),
                     ('numbered_rows_are_recognised', 'forall |r0: int, n: int| #[trigger] numbered_rows(*self, r0, n) ==> r is Ok && r->Ok_0 == RuleNumbersPlacement::LeftBelow(n as usize)')],
-           loop_specs={0: {'invariant': [('rows', 'rows_nonempty(*self)'), ('not_yet', 'exists |r0: int| #[trigger] hodl_row(*self, r0) && row <= r0'), ('none_above', 'forall |k: int| 0 <= k < row ==> !(#[trigger] pl(*self, k, 0) is HorizontalOutputDoubleLine)')],
-                           'ensures': [('at_line', 'hodl_row(*self, row as int)')], 'decreases': 'self.content@.len() - row', 'body_prefix': VLEN},
-                       1: {'invariant': [('rows', 'rows_nonempty(*self) && row <= self.content@.len()'), ('line', 'exists |r0: int| #[trigger] hodl_row(*self, r0) && row == r0 + 1 + max_rule_number '
-                                                                                               '&& forall |k: int| 1 <= k <= max_rule_number ==> numbered(#[trigger] pl(*self, r0 + k, 0), k)')],
-                           'decreases': 'self.content@.len() - row', 'body_prefix': VLEN}}),
+           loop_specs={0: {'invariant': [('rows', 'rows_nonempty(*self) && row <= self.content@.len()'), ('none_above', 'forall |k: int| 0 <= k < row ==> !(#[trigger] pl(*self, k, 0) is HorizontalOutputDoubleLine)')],
+                           'ensures': [('at_line_or_at_the_end', 'row <= self.content@.len() && (hodl_row(*self, row as int) || (row == self.content@.len() && forall |r0: int| !#[trigger] hodl_row(*self, r0)))')], 'decreases': 'self.content@.len() - row', 'body_prefix': VLEN},
+                       1: {'invariant': [('rows', 'rows_nonempty(*self) && row <= self.content@.len() + 1'),
+                                         ('line', '(row <= self.content@.len() && exists |r0: int| #[trigger] hodl_row(*self, r0) && row == r0 + 1 + max_rule_number && forall |k: int| 1 <= k <= max_rule_number ==> numbered(#[trigger] pl(*self, r0 + k, 0), k)) '
+                                                  '|| (max_rule_number == 0 && row == self.content@.len() + 1 && forall |r0: int| !#[trigger] hodl_row(*self, r0))')],
+                           'decreases': 'self.content@.len() + 1 - row', 'body_prefix': VLEN}}),
         fn(PL, 'Plane', 'recognize_vertical_rule_numbers', ret='r', loops=2, rewrites=RN, body_prefix=VLEN,
            splices=[{'id': 'not_numbered_a', 'op': 'before', 'anchor': 'return Err(plane_invalid_rule_number(rule_number));', 'text': 'proof { assert forall |c0: int, n: int| numbered_cols(*self, c0, n) implies false by { let k = col - c0; if 1 <= k <= n { assert(numbered(pl(*self, self.content@.len() - 1, c0 + k), k)); } } }'},
-                    {'id': 'not_numbered_b', 'op': 'before', 'anchor': 'return Ok(RuleNumbersPlacement::NotPresent);', 'nth': 0, 'text': 'proof { assert forall |c0: int, n: int| numbered_cols(*self, c0, n) implies false by { let k = col - c0; if 1 <= k <= n { assert(numbered(pl(*self, self.content@.len() - 1, c0 + k), k)); } } }'},
-                    {'id': 'not_numbered_c', 'op': 'before', 'anchor': 'return Ok(RuleNumbersPlacement::NotPresent);', 'nth': 1, 'text': 'proof { assert forall |c0: int, n: int| numbered_cols(*self, c0, n) implies false by { let k = col - c0; if 1 <= k <= n { assert(numbered(pl(*self, self.content@.len() - 1, c0 + k), k)); } } }'}],
-           requires=[('rows_not_empty', 'rows_nonempty(*self)'), ('double_line_in_last_row', 'exists |c0: int| vodl_col(*self, c0)')],
+                    {'id': 'not_numbered_b', 'op': 'before', 'anchor': 'return Ok(RuleNumbersPlacement::NotPresent);', 'nth': 1, 'text': 'proof { assert forall |c0: int, n: int| numbered_cols(*self, c0, n) implies false by { let k = col - c0; if 1 <= k <= n { assert(numbered(pl(*self, self.content@.len() - 1, c0 + k), k)); } } }'},
+                    {'id': 'not_numbered_c', 'op': 'before', 'anchor': 'return Ok(RuleNumbersPlacement::NotPresent);', 'nth': 2, 'text': 'proof { assert forall |c0: int, n: int| numbered_cols(*self, c0, n) implies false by { let k = col - c0; if 1 <= k <= n { assert(numbered(pl(*self, self.content@.len() - 1, c0 + k), k)); } } }'}],
+           requires=[('rows_not_empty', 'rows_nonempty(*self)')],
            ensures=[('numbered_1_to_n_after_the_double_line', '(r is Ok && r->Ok_0 is RightAfter) ==> r->Ok_0->RightAfter_0 >= 1 && exists |c0: int| #[trigger] vodl_col(*self, c0) && c0 + 1 + r->Ok_0->RightAfter_0 == self.content@.last()@.len() '
                                                               '&& forall |k: int| 1 <= k <= r->Ok_0->RightAfter_0 ==> numbered(#[trigger] pl(*self, self.content@.len() - 1, c0 + k), k)'),
                     ('never_left_below', 'r is Ok ==> !(r->Ok_0 is LeftBelow)'),
+                    ('no_double_line_no_rule_numbers', '(forall |c0: int| !#[trigger] vodl_col(*self, c0)) ==> r == Ok::<RuleNumbersPlacement, DmntkError>(RuleNumbersPlacement::NotPresent)'),
                     ('numbered_columns_are_recognised', 'forall |c0: int, n: int| #[trigger] numbered_cols(*self, c0, n) ==> r is Ok && r->Ok_0 == RuleNumbersPlacement::RightAfter(n as usize)')],
-           loop_specs={0: {'invariant': [('rows', 'rows_nonempty(*self) && row == self.content@.len() - 1'), ('not_yet', 'exists |c0: int| #[trigger] vodl_col(*self, c0) && col <= c0'), ('none_before', 'forall |k: int| 0 <= k < col ==> !(#[trigger] pl(*self, row as int, k) is VerticalOutputDoubleLine)')],
-                           'ensures': [('at_line', 'vodl_col(*self, col as int)')], 'decreases': 'self.content@.last()@.len() - col', 'body_prefix': VLEN},
-                       1: {'invariant': [('rows', 'rows_nonempty(*self) && row == self.content@.len() - 1 && col <= self.content@.last()@.len()'), ('line', 'exists |c0: int| #[trigger] vodl_col(*self, c0) && col == c0 + 1 + max_rule_number '
-                                                                                               '&& forall |k: int| 1 <= k <= max_rule_number ==> numbered(#[trigger] pl(*self, row as int, c0 + k), k)')],
-                           'decreases': 'self.content@.last()@.len() - col', 'body_prefix': VLEN}}),
+           loop_specs={0: {'invariant': [('rows', 'rows_nonempty(*self) && row == self.content@.len() - 1 && col <= self.content@.last()@.len()'), ('none_before', 'forall |k: int| 0 <= k < col ==> !(#[trigger] pl(*self, row as int, k) is VerticalOutputDoubleLine)')],
+                           'ensures': [('at_line_or_at_the_end', 'col <= self.content@.last()@.len() && (vodl_col(*self, col as int) || (col == self.content@.last()@.len() && forall |c0: int| !#[trigger] vodl_col(*self, c0)))')], 'decreases': 'self.content@.last()@.len() - col', 'body_prefix': VLEN},
+                       1: {'invariant': [('rows', 'rows_nonempty(*self) && row == self.content@.len() - 1 && col <= self.content@.last()@.len() + 1'),
+                                         ('line', '(col <= self.content@.last()@.len() && exists |c0: int| #[trigger] vodl_col(*self, c0) && col == c0 + 1 + max_rule_number && forall |k: int| 1 <= k <= max_rule_number ==> numbered(#[trigger] pl(*self, row as int, c0 + k), k)) '
+                                                  '|| (max_rule_number == 0 && col == self.content@.last()@.len() + 1 && forall |c0: int| !#[trigger] vodl_col(*self, c0))')],
+                           'decreases': 'self.content@.last()@.len() + 1 - col', 'body_prefix': VLEN}}),
         fn(PL, 'Plane', 'recognize_rule_numbers_placement', ret='r',
-           requires=[('rows_not_empty', 'rows_nonempty(*self)'), ('double_line_in_first_column', 'exists |r0: int| hodl_row(*self, r0)'), ('double_line_in_last_row', 'exists |c0: int| vodl_col(*self, c0)')],
+           requires=[('rows_not_empty', 'rows_nonempty(*self)')],
            ensures=[('rules_as_rows_numbering_wins', 'forall |r0: int, n: int| #[trigger] numbered_rows(*self, r0, n) ==> r is Ok && r->Ok_0 == RuleNumbersPlacement::LeftBelow(n as usize)'),
                     ('left_below', '(r is Ok && r->Ok_0 is LeftBelow) ==> r->Ok_0->LeftBelow_0 >= 1 && exists |r0: int| #[trigger] hodl_row(*self, r0) && r0 + 1 + r->Ok_0->LeftBelow_0 == self.content@.len() '
                                    '&& forall |k: int| 1 <= k <= r->Ok_0->LeftBelow_0 ==> numbered(#[trigger] pl(*self, r0 + k, 0), k)'),
                     ('right_after', '(r is Ok && r->Ok_0 is RightAfter) ==> r->Ok_0->RightAfter_0 >= 1 && exists |c0: int| #[trigger] vodl_col(*self, c0) && c0 + 1 + r->Ok_0->RightAfter_0 == self.content@.last()@.len() '
                                     '&& forall |k: int| 1 <= k <= r->Ok_0->RightAfter_0 ==> numbered(#[trigger] pl(*self, self.content@.len() - 1, c0 + k), k)')]),
         fn(RG, 'Recognizer', 'recognize_orientation', ret='r',
-           requires=[('rows_not_empty', 'rows_nonempty(old(self).plane)'), ('double_line_in_first_column', 'exists |r0: int| hodl_row(old(self).plane, r0)'), ('double_line_in_last_row', 'exists |c0: int| vodl_col(old(self).plane, c0)')],
+           requires=[('rows_not_empty', 'rows_nonempty(old(self).plane)')],
            ensures=[('plane_kept', 'final(self).plane == old(self).plane'),
                     ('hit_policy_is_the_marker_drawn', 'r is Ok ==> final(self).hit_policy == placement_policy(final(self).hit_policy_placement)'),
                     ('rule_count_is_the_last_rule_number', 'r is Ok ==> final(self).rule_count == placement_count(final(self).rule_numbers_placement)'),
@@ -313,18 +338,22 @@ UNIT = {
 }
 
 ASSUMPTIONS = ['A-scan: canvas::scan builds a rectangular grid with at least one row (it pads every row to the widest line); its text loop (str::lines / trim / chars) is outside the verifier\'s reach',
-               'A-plane: the plane handed to the recognizer has non-empty rows, a horizontal output double line in its first column and a vertical output double line in its last row '
-               '(preconditions of the rule number recognition; established by Canvas::plane, not proved)',
+               'A-plane: the plane handed to the recognizer has non-empty rows (precondition of the rule number recognition and of the orientation; Plane::finalize ENSURES it - `rectangular` - for every plane it accepts, '
+               'but that Canvas::plane calls finalize last and Recognizer works on that plane is wiring, not proved); the output double lines are no longer assumed (the searches are total after the fix)',
                'A-str: HitPolicy::try_from(&str) and usize::from_str(text.trim()) are functions of the text (uninterpreted marker_policy, rule_number_of)',
                'A-derive: derived PartialEq of Cell / Point, Copy/Clone of Point, Rect, HitPolicy',
                'A-std: slice::contains on chars; a Vec\'s length fits usize; error constructors are opaque',
                'R17: Result::and_then / map with a closure = match; R18: iteration over a slice range = indexed loop plus an asserted range check; R19: match scrutinee bound to a local (Verus crashes on guards over an indexed place); R1m: nested iter_mut = indexed loops']
 NOT_DECIDED = {'C19': ['Canvas::plane (grid -> plane), Recognizer::recognize_horizontal_table (plane -> components), Plane::pivot and builder::build (components -> DecisionTable) are not under contract: only the BOUNDED stand-in drawn-tables-are-recognised-as-drawn looks at them',
                        'evaluation equivalence with the table loaded from XML; the text loop of canvas::scan',
-                       'that the preconditions on the plane (A-plane) hold for every text that scan accepts: panic freedom is proved per function under these preconditions, not end to end']}
+                       'that the precondition on the plane (A-plane: rectangular, established by Plane::finalize) reaches every function that needs it: panic freedom is proved per function under it, end to end only the BOUNDED stand-in single-character-corruptions-never-panic looks']}
 
 BOUNDED = {'C19': [{'name': 'drawn-tables-are-recognised-as-drawn', 'script': 'drawdiff.py', 'args': [],
                     'functions': ['canvas::scan', 'Canvas::plane', 'Recognizer::recognize (recognize_horizontal_table, pivot)', 'builder::build'],
                     'bound': '346 generated drawings: rules as rows and rules as columns, 1..3 inputs, 1..2 outputs, 0..2 annotations, 1..3 rules, each of the 11 hit policy markers, with and without information item name and '
                              'allowed values (rules as rows), cell texts at varying offsets and widths: dmntk_recognizer::build gives back hit policy, aggregator, orientation, input expressions, allowed values, output label / '
-                             'component names, annotation names and all rule entries in order (white space around cell texts aside)'}]}
+                             'component names, annotation names and all rule entries in order (white space around cell texts aside)'},
+                   {'name': 'single-character-corruptions-never-panic', 'script': 'corruptdiff.py', 'args': [], 'quick_args': ['--quick'],
+                    'functions': ['dmntk_recognizer::build end to end (canvas::scan, Canvas::plane, Plane::finalize / pivot, Recognizer::recognize, builder::build)'],
+                    'bound': 'quick: 6 drawings (thorough: 22 - ten generated, the two shipped *.dtb, the ten of the recognizer\'s test gallery), every character replaced by each of 28 characters (blank, the 24 box-drawing characters '
+                             'the recognizer knows, a letter, a digit, a line feed), deleted, and preceded by one of 4 inserted characters: quick about 120 000, thorough about 486 000 texts, each answered with Ok or Err within 10 s, no panic'}]}
